@@ -11,6 +11,9 @@ def scenario(c, rnd):
     p = c['par']
     cacheable = {'status': 200, 'hdrs': [('Cache-Control', 'max-age=3600')], 'blen': rnd.choice([10, 3000]),
                  'abs': dict(invalidates=False, lockey='')}
+    slow = p.get('reader') == 'slow'
+    # the response another client is still receiving must be larger than what the socket buffers absorb
+    cacheable_a = dict(cacheable, blen=(400000 if p.get('store', 'mem') == 'mem' else 3000000)) if slow else cacheable
     oh = []
     if LOC[p['loc']]:
         oh.append((p['hdr'], LOC[p['loc']]))
@@ -20,12 +23,14 @@ def scenario(c, rnd):
     mresp = {'status': p['status'], 'hdrs': oh + ([('Cache-Control', 'max-age=3600')] if not unsafe else []), 'blen': 0 if p['status'] == 204 else 20,
              'abs': dict(invalidates=bool(inval), lockey='b' if (inval and same) else '')}
     body = 5 if p['method'] in ('POST', 'PUT', 'PATCH', 'FOO') else None
-    steps = [{'op': 'req', 'id': 1, 'key': 'a', 'origin': cacheable},
+    steps = [{'op': 'req', 'id': 1, 'key': 'a', 'origin': cacheable_a},
              {'op': 'req', 'id': 2, 'key': 'b', 'origin': cacheable},
-             {'op': 'req', 'id': 3, 'key': 'a', 'origin': cacheable},       # proves a is cached
-             {'op': 'req', 'id': 4, 'key': 'a', 'method': p['method'], 'body': body, 'origin': mresp},
-             {'op': 'req', 'id': 5, 'key': 'a', 'origin': cacheable},
-             {'op': 'req', 'id': 6, 'key': 'b', 'origin': cacheable}]
+             {'op': 'req', 'id': 3, 'key': 'a', 'origin': cacheable_a}]     # proves a is cached
+    if slow:
+        steps.append({'op': 'slowreq', 'id': 7, 'key': 'a', 'origin': cacheable_a})
+    steps += [{'op': 'req', 'id': 4, 'key': 'a', 'method': p['method'], 'body': body, 'origin': mresp},
+              {'op': 'req', 'id': 5, 'key': 'a', 'origin': cacheable_a},
+              {'op': 'req', 'id': 6, 'key': 'b', 'origin': cacheable}]
     return {'steps': steps, 'par': p, 'pred': c['pred']}
 
 
@@ -35,11 +40,20 @@ def run(ctx):
     ctx.log('TLC: %d states, %d scenario classes' % (res.distinct, len(classes)))
     rnd = random.Random(ctx.seed)
     classes.sort(key=lambda c: json.dumps(c, sort_keys=True))
-    if not ctx.thorough:
-        rnd.shuffle(classes)
-        classes = classes[:300]
-    scens = [scenario(c, random.Random(ctx.seed * 7919 + i)) for i, c in enumerate(classes)]
-    out = cachesim.run_scenarios(ctx, tree, scens, 6)
+    rnd.shuffle(classes)
+    out = []
+    quota = {('mem', 'none'): 150, ('mem', 'slow'): 40, ('rock', 'none'): 30, ('rock', 'slow'): 40, ('ufs', 'none'): 20, ('ufs', 'slow'): 30}
+    for (store, reader), q in sorted(quota.items()):
+        grp = [c for c in classes if c['par']['store'] == store and c['par']['reader'] == reader]
+        if not ctx.thorough:
+            # invalidating classes first: they are the ones the property constrains
+            grp.sort(key=lambda c: 0 if (c['par']['method'] not in ('GET', 'HEAD', 'OPTIONS') and c['par']['status'] < 400) else 1)
+            grp = grp[:q * 2 // 3] + grp[len(grp) - (q - q * 2 // 3):]
+        elif store != 'mem':
+            grp = grp[:240]
+        scens = [scenario(c, random.Random(ctx.seed * 7919 + i)) for i, c in enumerate(grp)]
+        out += cachesim.run_scenarios(ctx, tree, scens, 6 if store == 'mem' else 4, store=store, tag='%s%s' % (store, reader))
+        ctx.log('%s/%s: %d scenarios realised' % (store, reader, len(scens)))
     hist = [{'ev': cachesim.strip_for_tlc(ev)} for _, ev in out]
     rej = escen.validate(ctx, os.path.join(SPEC, 'Trace_Invalidation.tla'), os.path.join(SPEC, 'Trace_Invalidation.cfg'), hist, 'inval')
     ctx.log('realised %d scenarios; P-rejected %d' % (len(out), len(rej)))
@@ -63,5 +77,7 @@ def run(ctx):
     ctx.cov['impl_distinct'] = len({json.dumps(s['par'], sort_keys=True) for s, _ in out})
     for s, ev in out[:2]:
         ctx.sample({'par': s['par'], 'events': cachesim.strip_for_tlc(ev)})
-    ctx.cov['rule'] = ('classes = InvalScen.tla tuples (method x status x Location kind x header); GET a, GET b, GET a, M a, GET a, GET b; histories '
+    ctx.cov['by_store_reader'] = {'%s/%s' % k: sum(1 for s, _ in out if (s['par']['store'], s['par']['reader']) == k) for k in quota}
+    ctx.cov['slow_reader_got_header'] = sum(1 for _, ev in out for e in ev if e.get('slow') and e['hv'] >= 0)
+    ctx.cov['rule'] = ('classes = InvalScen.tla tuples (method x status x Location kind x header x store {mem, rock, ufs} x another client still receiving a {no, yes}); GET a, GET b, GET a, [slow GET a,] M a, GET a, GET b; histories '
                        'validated by TLC against Invalidation.tla. Non-trivial = distinct class.')
